@@ -191,6 +191,51 @@ def rule_r7(repo, run):
                   "declares a result the body never returns" % f_, dm.loc(sv))
 
 
+
+def rule_r8(repo, run):
+    R = run.rule("C09.R8", "what a wrapper declares denotes the declared type: the object pointer of a method is const exactly when "
+                           "the method is (`int f() const`, not `const int *f()`), a result that is a template is declared with "
+                           "its arguments, and a typemap names its type in one way (C05.R24)")
+    wc = repo.module("wrapc")
+    fn = wc.func("Wrapc.wrap_function")
+    # the test that decides `c_const` of the `this` argument: under `if cls:`, sets fmt_func.c_const
+    sets = [a for a in ast.walk(fn) if isinstance(a, ast.Assign) and isinstance(a.targets[0], ast.Attribute)
+            and a.targets[0].attr == "c_const" and pyflow.const_str(a.value) == "const "
+            and any(ast.unparse(t) == "cls" and pol for t, pol in pyflow.dominating_tests(a, stop=fn))]
+    if len(sets) != 1:
+        raise AnalysisError("C09.R8: the const of the object pointer in Wrapc.wrap_function was not found")
+    deciding = [t for t, pol in pyflow.dominating_tests(sets[0], stop=fn) if pol and ast.unparse(t) not in ("cls",)]
+    src = []
+    for t in deciding:
+        for x in ast.walk(t):
+            if isinstance(x, ast.Name):
+                defs = [a for a in ast.walk(fn) if isinstance(a, ast.Assign) and pyflow.is_name(a.targets[0], x.id)]
+                src.extend(ast.unparse(a.value) for a in defs)
+            elif isinstance(x, ast.Attribute):
+                src.append(ast.unparse(x))
+    run.check(R, "wrapc.Wrapc.wrap_function:this-const", bool(src) and all(s_.endswith(".func_const") for s_ in src),
+              "the object pointer is declared const when %s: the constness of the *method* is `func_const`; `const` is the constness "
+              "of the result type - `const int *get()` would take a const object and call a non-const method through it, "
+              "`int size() const` would refuse a const object" % sorted(set(src)), wc.loc(sets[0]))
+    # result declarations of the Python wrapper
+    wp = repo.module("wrapp")
+    n = 0
+    for q, f2 in sorted(wp.functions().items()):
+        for a in ast.walk(f2):
+            if isinstance(a, ast.Assign) and isinstance(a.value, ast.Call) and (pyflow.call_name(a.value) or "").endswith(".gen_arg_as_cxx") \
+                    and re.search(r"rv_decl|alloc_decl|capsule_type", ast.unparse(a.targets[0])):
+                n += 1
+                kw = dict((k.arg, k.value) for k in a.value.keywords)
+                ok = "with_template_args" in kw and isinstance(kw["with_template_args"], ast.Constant) and kw["with_template_args"].value is True
+                run.check(R, "wrapp.%s:%s:template-arguments" % (q, ast.unparse(a.targets[0])), ok,
+                          "the declaration of the result object is rendered without with_template_args=True: a `std::vector<int> *` "
+                          "result is declared `int *` (the typemap of a vector renders its element type)", wp.loc(a))
+    run.floor(R, "result declarations of the Python wrapper", n, 3)
+    from checks import c05
+    from sa.report import import_rules
+    import_rules(run, R, c05, repo, {"C05.R24"})
+
+
 def run(repo, run, tier):
     dm = repo.module("declast")
     tm = repo.module("todict")
@@ -595,3 +640,4 @@ def run(repo, run, tier):
     from checks import c02
     import_rules(run, R5, c02, repo, {"C02.R13"}, only=lambda c: c.startswith("typemap[") and "c_type" in c)
     rule_r7(repo, run)
+    rule_r8(repo, run)
